@@ -480,7 +480,7 @@ func runC18(c *Ctx) {
 	n := 0
 	id := func(p string) string { n++; return fmt.Sprintf("%s%d", p, n) }
 	seedOf := func() uint32 { return uint32(1 + r.Intn(1<<31)) }
-	patterns := []string{"", "tmp", "a*", "*b", "pre*suf", "x*y*z", "**", "*", "no star.txt", "a.*.go"}
+	patterns := []string{"", "tmp", "a*", "*b", "pre*suf", "x*y*z", "**", "*", "no star.txt", "a.*.go", ".*.swp", "..*", ".", "..", ".*"}
 	dirs := []string{"/", "/w", "/w/sub", "w", "/w/", "/w/../w", "", ".", "./", "w/.."}
 	preList := func(k int, kindCh byte, mixed bool) string {
 		var it []string
